@@ -197,6 +197,10 @@ func SimC04(c *CheckCtx, i int, r *Rng) error {
 		{Kind: "warm", Run: mkRun(simrt.Schedule{Default: "desc"}, args.Entrypoint, true)},
 		{Kind: "run", Run: mkRun(asc, args.Entrypoint, false)},
 	}})
+	// ... or in a process in which another context over a copy of the module is alive and executed first
+	sec := mkRun(asc, args.Entrypoint, true)
+	sec.SecondContext = true
+	sc.Variants = append(sc.Variants, Variant{Name: "proc:second-context", Ops: []Op{{Kind: "run", Run: sec}}})
 	// a run hit by one I/O error on an output file, then the same run again: eventually the same files
 	if !real {
 		var g string
